@@ -708,6 +708,12 @@ def frame_column(I, st, frame, name, txt=''):
 def subscript(I, st, base, idx, txt):
     if isinstance(base, VObj) and base.cls == 'DataFrame' and isinstance(idx, VStr):
         return frame_column(I, st, base, idx, txt)
+    if isinstance(base, VObj) and base.cls == 'DataFrame' and isinstance(idx, VSeq) and idx.ek in ('pstr', 'str'):
+        # df[[c1, c2, ...]]: the sub-frame of those columns (same rows, same cells); every name must be a column
+        k = z3.Int(fresh_name('k'))
+        cols = base.fields['columns']
+        I.oblige(st, f'key[{txt}]', z3.ForAll([k], z3.Implies(z3.And(k >= 0, k < idx.length), I.contains(cols, VStr(idx.arr[k]), st))), text=txt)
+        return VObj('DataFrame', dict(base.fields, columns=VSeq(idx.ek, idx.length, idx.arr, flavor='list')))
     if isinstance(base, VObj) and base.cls == 'Table':
         return table_subscript(I, st, base, idx)
     if isinstance(base, VObj) and base.cls == 'InfoDict' and isinstance(idx, VStr) and idx.concrete() in base.fields:
@@ -2081,3 +2087,43 @@ def s_pd_concat(I, st, args, kwargs):
     I.assume(st, z3.ForAll([a], z3.And(z3.Implies(z3.And(inA, z3.Not(inB)), COL(D, a) == COL(DA, a)),
                                        z3.Implies(z3.And(inB, z3.Not(inA)), COL(D, a) == COL(DB, a))), patterns=[COL(D, a)]))
     return VObj('DataFrame', {'columns': cols, 'nrows': A.fields['nrows'], 'data': VOpaque('FrameData', D), 'cells': VStr('str')})
+
+
+@objmethod('Series', 'tolist')
+def series_tolist(I, st, s):
+    v = s.fields['values']
+    return VSeq(v.ek, v.length, v.arr, flavor='list')
+
+
+@objmethod('Series', 'unique')
+def series_unique(I, st, s):
+    """Series.unique(): the distinct cells, each once (order of first appearance; only distinctness and coverage are used)."""
+    v = materialize(I, st, s.fields['values'])
+    es = sort_of(v.ek)
+    U = VSeq(v.ek, z3.Int(fresh_name('uniq.len')), z3.Array(fresh_name('uniq.arr'), z3.IntSort(), es), flavor='list')
+    src = z3.Function(fresh_name('uniq.src'), z3.IntSort(), z3.IntSort())
+    pos = z3.Function(fresh_name('uniq.pos'), es, z3.IntSort())
+    i, r = z3.Int(fresh_name('i')), z3.Int(fresh_name('r'))
+    I.assume(st, z3.And(U.length >= 0, U.length <= v.length, z3.Implies(v.length > 0, U.length > 0)))
+    I.assume(st, z3.ForAll([i], z3.Implies(z3.And(i >= 0, i < U.length), z3.And(src(i) >= 0, src(i) < v.length, v.arr[src(i)] == U.arr[i],
+                                                                          pos(U.arr[i]) == i)), patterns=[U.arr[i]]))
+    I.assume(st, z3.ForAll([r], z3.Implies(z3.And(r >= 0, r < v.length), z3.And(pos(v.arr[r]) >= 0, pos(v.arr[r]) < U.length,
+                                                                          U.arr[pos(v.arr[r])] == v.arr[r])), patterns=[v.arr[r]]))
+    return U
+
+
+_prev_join = _METHODS[(VStr, 'join')]
+
+
+def m_pstr_join2(I, st, sep, seq):
+    """sep.join((a, b, ...)) of a fixed-size tuple of strings is a + sep + b + ... exactly."""
+    from . import sym as _sym
+    if isinstance(seq, VTuple) and seq.items and all(isinstance(x, VStr) and x.opaque for x in seq.items) and sep.opaque:
+        r = seq.items[0].t
+        for x in seq.items[1:]:
+            r = _sym.PCONCAT(_sym.PCONCAT(r, sep.t), x.t)
+        return VStr(r)
+    return _prev_join(I, st, sep, seq)
+
+
+_METHODS[(VStr, 'join')] = m_pstr_join2
